@@ -16,7 +16,7 @@ func init() {
 }
 
 func runC06(p *Program, r *Report) {
-	r.Explanation = "Decided on the abstract interpretation of the parsers over a symbolic stream (bounded path exploration) plus who-may-write: (state) iccProfileData/iccProfileErr are written only by SetICCProfileData (clears the error) and SetICCProfileError (clears the data) and ICCProfileData returns both fields unmodified — bytes and error are never both set; (webp) ICC presence is bit 5 of the VP8X flags byte, the next chunk must be 'ICCP' at offset 30, the returned bytes are exactly in[38 : 38+LE32(in[34:38])] copied with a full-read primitive, absence gives (nil,nil), a wrong chunk or short data gives an error while the dimensions are still returned; (png) the returned bytes are Bytes() of the buffer io.Copy filled from zlib.NewReader over exactly the chunk bytes after name, terminator and a zero method byte (Length − (nameLen+2) bytes), reached only when both zlib errors are nil, either error reaches SetICCProfileError and the metadata is still returned; (jpeg) APP2 'ICC_PROFILE\\0' (12 bytes compared), sequence number Data[12], count Data[13], payload Data[14:], stored in slot number−1 under the guards number ≠ 0, number ≤ count, consistent count; the profile is the slots written in ascending index order into one buffer; once an error is recorded no path sets profile data afterwards (sticky); (fullread) no payload is read with a bare Read. NOT decided: byte equality through bufio/zlib themselves (library contracts); exploration is bounded (≤ 3 chunks/segments per path)."
+	r.Explanation = "Decided on the abstract interpretation of the parsers over a symbolic stream (bounded path exploration) plus who-may-write: (state) iccProfileData/iccProfileErr are written only by SetICCProfileData (clears the error) and SetICCProfileError (clears the data) and ICCProfileData returns both fields unmodified — bytes and error are never both set; (webp) ICC presence is bit 5 of the VP8X flags byte, the next chunk must be 'ICCP' at offset 30, the returned bytes are exactly in[38 : 38+LE32(in[34:38])] copied with a full-read primitive, absence gives (nil,nil), a wrong chunk or short data gives an error while the dimensions are still returned; (png) the returned bytes are Bytes() of the buffer io.Copy filled from zlib.NewReader over exactly the chunk bytes after name, terminator and a zero method byte (Length − (nameLen+2) bytes), reached only when both zlib errors are nil, either error reaches SetICCProfileError and the metadata is still returned; (jpeg) APP2 'ICC_PROFILE\\0' (12 bytes compared), sequence number Data[12], count Data[13], payload Data[14:], stored in slot number−1 under the guards number ≠ 0, number ≤ count, consistent count; the profile is the slots written in ascending index order into one buffer; once an error is recorded no path sets profile data afterwards (sticky); (fullread) no payload is read with a bare Read; (owned) the payload slices the parsers keep until the profile is assembled are copies they own: no Peek/ReadSlice/ReadLine view into a buffered reader's buffer, which the next refill overwrites. NOT decided: byte equality through bufio/zlib themselves (library contracts); exploration is bounded (≤ 3 chunks/segments per path)."
 	r.RuleText = "one instance per clause per container format, evaluated on all explored paths"
 	r.Trusted = []string{"go/packages+go/types+go/ssa (x/tools v0.29.0)", "the abstract interpreter (bounded exploration)", "io.CopyN/io.Copy/zlib/bytes.Buffer contracts", "(&bytes.Buffer{}).Bytes() is nil for an empty buffer"}
 	checkICCState(p, r)
@@ -24,11 +24,13 @@ func runC06(p *Program, r *Report) {
 	checkICCPng(p, r)
 	checkICCJpeg(p, r)
 	rd1Scan(p, r, "C06.fullread")
+	borrowedViewScan(p, r, "C06.owned")
 	r.Floor("C06.state", 4)
 	r.Floor("C06.webp", 5)
 	r.Floor("C06.png", 4)
 	r.Floor("C06.jpeg", 6)
 	r.Floor("C06.fullread", 1)
+	r.Floor("C06.owned", 1)
 }
 
 // checkICCState: who-may-write + setter/getter forms.
